@@ -113,6 +113,24 @@ Theorem C08_default_mode_always_compiles : forall st force, dir st <> [] ->
   snd (invoke st false force true) = Ran program true (compile (ver st) (dep st) (dir st)).
 Proof. exact (default_mode_compiles H program compile tpl). Qed.
 
+(* -compile <path>: the output path is not a cache entry.  After any history, whatever lies at the
+   path (nothing, an unrelated file, the binary of an earlier -compile), in every mode, with or
+   without -f: the CURRENT files are compiled with the current toolchain and imported packages,
+   NOTHING is run, directory and cache stay as they are *)
+Theorem C08_compile_always_current : forall ops st o hashfast force gocache,
+  let cur := run_ops ops st in
+  dir cur <> [] ->
+  snd (step cur (CompileOut o hashfast force gocache)) = Built program (compile (ver cur) (dep cur) (dir cur)) /\
+  fst (step cur (CompileOut o hashfast force gocache)) = cur.
+Proof. exact (compile_after_history H program compile tpl). Qed.
+
+(* that rests on Parse setting inv.Force for -compile: without it ([invoke_compile_f false]) hash
+   mode RUNS what lies at the output path instead of building *)
+Theorem C08_compile_without_parse_force_refuted : forall st, dir st <> [] ->
+  invoke_compile_f program compile false st OOld true false true = RanOutput program /\
+  invoke_compile_f program compile false st OOther true false true = RanOutput program.
+Proof. exact (compile_without_parse_force_refuted program compile). Qed.
+
 (* freshness is not obtained by never reusing: in hash mode the invocation after any
    invocation, nothing changed, runs the same binary without compiling *)
 Theorem C08_hash_mode_reuses : forall st hashfast force gocache gocache', dir st <> [] ->
@@ -163,6 +181,8 @@ Print Assumptions C08_hashed_in_history.
 Print Assumptions C08_inv_empty_cache.
 Print Assumptions C08_force.
 Print Assumptions C08_default_mode_always_compiles.
+Print Assumptions C08_compile_always_current.
+Print Assumptions C08_compile_without_parse_force_refuted.
 Print Assumptions C08_hash_mode_reuses.
 Print Assumptions C08_one_cache_dir.
 Print Assumptions C08_one_cache_dir_indep.
